@@ -35,6 +35,10 @@ LawClosed    == M.closed => (CrossSet(M, k, SG) \cup TieSet(M, k, SG)) # {}
 LawSignLocal == \A f \in FaceIds(M) : ~HasSeamNode(M, k, f) =>
                    (CrossesAM(M, k, SG, f) <=> CrossesAM(M, k, SgnOf(M, k, -1), f))
 
+LawWellFormed == WellFormedMesh(M)
+Centres == { <<3, 0, 1>>, <<-3, 0, -1>>, <<-1, 0, 3>>, <<1, 0, -3>>, <<1, 0, 3>>, <<-3, 0, 1>>, <<2, 0, 1>>, <<-2, 0, -1>> }
+LawVisibility == \A c \in Centres : VisLaws(M, c)
+
 PoleCorner == \E f \in FaceIds(M) : CornerAtPole(FaceDirs(M, f))
 
 Emit == PrintT(<<"CASE", [ mi |-> mi, k |-> k, sv |-> sv, sgn |-> SG,
